@@ -14,7 +14,9 @@ vars == <<xi, op, ai>>
 \* universes are sequences (TLC cannot build a set of integers and strings)
 IntSeq == [i \in 1..(2 * K + 1) |-> IntV(i - K - 1)] \o <<IntV(100), IntV(0 - 100), IntV(1000)>>
 QuarterNums == SelectSeq([i \in 1..(4 * K + 1) |-> i - 2 * K - 1], LAMBDA n : n % 4 # 0)
-FracSeq == [i \in 1..Len(QuarterNums) |-> Flt(QuarterNums[i], 4)] \o <<Flt(10, 1), Flt(0, 1), Flt(0 - 3, 1), Flt(1, 8), Flt(201, 2), Flt(1, 1), Flt(0 - 1, 1), Flt(2, 1)>>
+FracSeq == [i \in 1..Len(QuarterNums) |-> Flt(QuarterNums[i], 4)] \o <<Flt(10, 1), Flt(0, 1), Flt(0 - 3, 1), Flt(1, 8), Flt(201, 2), Flt(1, 1), Flt(0 - 1, 1), Flt(2, 1),
+               \* (more fractional digits, still exactly floats: 1/64 = 0.015625, -7/32 = -0.21875)
+               Flt(1, 64), Flt(0 - 7, 32)>>
 \* (the last four: leading zeros are still decimal - "010" spells ten)
 NumStrs == <<Str(<<51>>), Str(<<45, 50>>), Str(<<50, 46, 53>>), Str(<<48>>), Str(<<45, 48, 46, 50, 53>>), Str(<<49, 48>>),
              Str(<<48, 49, 48>>), Str(<<48, 49, 50>>), Str(<<48, 48, 55>>), Str(<<45, 48, 49, 49>>)>>
